@@ -1,4 +1,6 @@
 import MLProps.C11
+import MLProps.C12
+import MLProps.C14
 import Mathlib.Algebra.BigOperators.Group.Finset.Basic
 /-!
 # C19 — the learned distance depends on the data only through its geometry
@@ -186,3 +188,260 @@ example : innerCov (K := Rat) (n := 3) (d := 1) (fun i _ => [0, 2, 5].getD i.val
   decide +kernel
 example : innerCov (K := Rat) (n := 3) (d := 1) (fun i _ => [3, 5, 8].getD i.val 0) (fun i => [0, 0, 1].getD i.val 0) 0 0 = 2 / 3 := by
   decide +kernel
+
+/-! ## the whole ITML solver: rotations of the data and swaps inside ANY subset of the training pairs
+
+Two runs are related when the second sees every difference vector as `σ_i · Qᵀ v_i` (`Q` orthogonal, `σ_i = ±1`: the points
+mapped through `Q`, the two points of pair `i` exchanged when `σ_i = −1`) and starts from `Qᵀ A₀ Q`.  Every projection
+keeps the relation `A′ = Qᵀ A Q`, equal duals and equal slack-adjusted bounds; the stopping rule reads the duals only, so
+both runs perform the same number of sweeps. -/
+
+/-- the relation between the two runs' states -/
+def ItmlRel (Q : Matrix (Fin d) (Fin d) ℝ) (s s' : ItmlState ℝ d m) : Prop :=
+  Amat s' = Qᵀ * Amat s * Q ∧ s'.lam = s.lam ∧ s'.bhat = s.bhat
+
+theorem stepP_equiv (Q : Matrix (Fin d) (Fin d) ℝ) (hQ : Q * Qᵀ = 1) (σ : Fin m → ℝ) (hσ : ∀ i, σ i * σ i = 1)
+    (vs vs' : Vector (Vector ℝ d) m) (hvs : ∀ i, vvec vs' i = σ i • (Qᵀ *ᵥ vvec vs i))
+    (s s' : ItmlState ℝ d m) (h : ItmlRel Q s s') (i : Fin m) :
+    stepP vs' i s' = stepP vs i s := by
+  unfold stepP
+  rw [hvs i, h.1, Matrix.mulVec_smul, dotProduct_smul, smul_dotProduct, smul_smul, hσ i, one_smul]
+  rw [Matrix.mulVec_mulVec, Matrix.mul_assoc, Matrix.mul_assoc, hQ, Matrix.mul_one]
+  rw [← Matrix.mulVec_mulVec, Matrix.dotProduct_mulVec, Matrix.vecMul_transpose, Matrix.mulVec_mulVec, hQ,
+    Matrix.one_mulVec]
+
+theorem Av_equiv (Q : Matrix (Fin d) (Fin d) ℝ) (hQ : Q * Qᵀ = 1) (σ : Fin m → ℝ)
+    (vs vs' : Vector (Vector ℝ d) m) (hvs : ∀ i, vvec vs' i = σ i • (Qᵀ *ᵥ vvec vs i))
+    (s s' : ItmlState ℝ d m) (h : ItmlRel Q s s') (i : Fin m) :
+    Amat s' *ᵥ vvec vs' i = σ i • (Qᵀ *ᵥ (Amat s *ᵥ vvec vs i)) := by
+  rw [hvs i, h.1, Matrix.mulVec_smul, Matrix.mulVec_mulVec, Matrix.mul_assoc, Matrix.mul_assoc, hQ, Matrix.mul_one,
+    ← Matrix.mulVec_mulVec]
+
+/-- **one projection is equivariant** under an orthogonal change of coordinates and under swaps inside pairs -/
+theorem C19_itml_step_equivariant (γ gproj : ℝ) (numPos : ℕ) (Q : Matrix (Fin d) (Fin d) ℝ) (hQ : Q * Qᵀ = 1)
+    (σ : Fin m → ℝ) (hσ : ∀ i, σ i * σ i = 1) (vs vs' : Vector (Vector ℝ d) m)
+    (hvs : ∀ i, vvec vs' i = σ i • (Qᵀ *ᵥ vvec vs i)) (s s' : ItmlState ℝ d m) (h : ItmlRel Q s s') (i : Fin m) :
+    ItmlRel Q (itmlStep γ gproj numPos vs i s) (itmlStep γ gproj numPos vs' i s') := by
+  have hp := stepP_equiv Q hQ σ hσ vs vs' hvs s s' h i
+  have hα : stepAlpha gproj numPos vs' i s' = stepAlpha gproj numPos vs i s := by
+    simp only [stepAlpha, hp, h.2.1, h.2.2]
+  have hβ : stepBeta gproj numPos vs' i s' = stepBeta gproj numPos vs i s := by
+    simp only [stepBeta, hα, hp]
+  refine ⟨?_, ?_, ?_⟩
+  · rw [itmlStep_A, itmlStep_A, hβ, Av_equiv Q hQ σ vs vs' hvs s s' h i, h.1]
+    set u := Amat s *ᵥ vvec vs i
+    have hvv : vecMulVec (σ i • (Qᵀ *ᵥ u)) (σ i • (Qᵀ *ᵥ u)) = Qᵀ * vecMulVec u u * Q := by
+      have h1 : vecMulVec (σ i • (Qᵀ *ᵥ u)) (σ i • (Qᵀ *ᵥ u)) = vecMulVec (Qᵀ *ᵥ u) (Qᵀ *ᵥ u) := by
+        ext a b
+        simp only [vecMulVec_apply, Pi.smul_apply, smul_eq_mul]
+        have := hσ i
+        calc σ i * (Qᵀ *ᵥ u) a * (σ i * (Qᵀ *ᵥ u) b) = (σ i * σ i) * ((Qᵀ *ᵥ u) a * (Qᵀ *ᵥ u) b) := by ring
+          _ = (Qᵀ *ᵥ u) a * (Qᵀ *ᵥ u) b := by rw [this, one_mul]
+      rw [h1, Matrix.mul_vecMulVec, Matrix.vecMulVec_mul, ← Matrix.mulVec_transpose]
+    rw [hvv, Matrix.mul_add, Matrix.add_mul, Matrix.mul_smul, Matrix.smul_mul, Matrix.mul_assoc]
+  · rw [itmlStep_lam, itmlStep_lam, hα, h.2.1]
+  · rw [itmlStep_bhat, itmlStep_bhat, hα, h.2.2]
+
+theorem C19_itml_steps_equivariant (γ gproj : ℝ) (numPos : ℕ) (Q : Matrix (Fin d) (Fin d) ℝ) (hQ : Q * Qᵀ = 1)
+    (σ : Fin m → ℝ) (hσ : ∀ i, σ i * σ i = 1) (vs vs' : Vector (Vector ℝ d) m)
+    (hvs : ∀ i, vvec vs' i = σ i • (Qᵀ *ᵥ vvec vs i)) (order : List (Fin m)) :
+    ∀ (s s' : ItmlState ℝ d m), ItmlRel Q s s' →
+      ItmlRel Q (itmlSteps γ gproj numPos vs order s) (itmlSteps γ gproj numPos vs' order s') := by
+  induction order with
+  | nil => intro s s' h; exact h
+  | cons i t ih =>
+    intro s s' h
+    simp only [itmlSteps, List.foldl_cons]
+    exact ih _ _ (C19_itml_step_equivariant γ gproj numPos Q hQ σ hσ vs vs' hvs s s' h i)
+
+/-- **the whole solver is equivariant**: for every iteration budget, tolerance and slack parameter the run on the
+rotated / pair-swapped data ends, after the same number of sweeps, at `Qᵀ A Q` with the same dual variables -/
+theorem C19_itml_run_equivariant (γ tol : ℝ) (numPos : ℕ) (Q : Matrix (Fin d) (Fin d) ℝ) (hQ : Q * Qᵀ = 1)
+    (σ : Fin m → ℝ) (hσ : ∀ i, σ i * σ i = 1) (vs vs' : Vector (Vector ℝ d) m)
+    (hvs : ∀ i, vvec vs' i = σ i • (Qᵀ *ᵥ vvec vs i)) :
+    ∀ (fuel it : ℕ) (s s' : ItmlState ℝ d m) (lamOld : Vector ℝ m), ItmlRel Q s s' →
+      ItmlRel Q (itmlRun γ tol numPos vs fuel it s lamOld).1 (itmlRun γ tol numPos vs' fuel it s' lamOld).1 ∧
+      (itmlRun γ tol numPos vs fuel it s lamOld).2 = (itmlRun γ tol numPos vs' fuel it s' lamOld).2 := by
+  intro fuel
+  induction fuel with
+  | zero => intro it s s' lamOld h; exact ⟨h, rfl⟩
+  | succ f ih =>
+    intro it s s' lamOld h
+    have hsw := C19_itml_steps_equivariant γ (gammaProj γ) numPos Q hQ σ hσ vs vs' hvs (List.finRange m) s s' h
+    have hlam : (itmlSweep γ (gammaProj γ) numPos vs' s').lam = (itmlSweep γ (gammaProj γ) numPos vs s).lam := hsw.2.1
+    simp only [itmlRun, hlam]
+    split
+    · exact ⟨hsw, rfl⟩
+    · split
+      · exact ⟨hsw, rfl⟩
+      · exact ih _ _ _ _ hsw
+
+/-- rotation clause: ITML on points mapped through an orthogonal `Q` (prior `Qᵀ A₀ Q`, e.g. the identity or the
+covariance prior of the mapped points) learns `Qᵀ M Q` -/
+theorem C19_itml_rotate (γ tol : ℝ) (numPos : ℕ) (Q : Matrix (Fin d) (Fin d) ℝ) (hQ : Q * Qᵀ = 1)
+    (vs vs' : Vector (Vector ℝ d) m) (hvs : ∀ i, vvec vs' i = Qᵀ *ᵥ vvec vs i)
+    (fuel : ℕ) (s s' : ItmlState ℝ d m) (h : ItmlRel Q s s') (lamOld : Vector ℝ m) :
+    Amat (itmlRun γ tol numPos vs' fuel 0 s' lamOld).1 = Qᵀ * Amat (itmlRun γ tol numPos vs fuel 0 s lamOld).1 * Q :=
+  ((C19_itml_run_equivariant γ tol numPos Q hQ (fun _ => 1) (fun _ => by norm_num) vs vs'
+    (fun i => by rw [hvs i, one_smul]) fuel 0 s s' lamOld h).1).1
+
+/-- swap clause: exchanging the two points inside ANY subset of the training pairs (`σ_i = −1` on the subset) leaves the
+learned matrix unchanged -/
+theorem C19_itml_swap_any (γ tol : ℝ) (numPos : ℕ) (σ : Fin m → ℝ) (hσ : ∀ i, σ i = 1 ∨ σ i = -1)
+    (vs vs' : Vector (Vector ℝ d) m) (hvs : ∀ i, vvec vs' i = σ i • vvec vs i)
+    (fuel : ℕ) (s : ItmlState ℝ d m) (lamOld : Vector ℝ m) :
+    Amat (itmlRun γ tol numPos vs' fuel 0 s lamOld).1 = Amat (itmlRun γ tol numPos vs fuel 0 s lamOld).1 := by
+  have h0 : ItmlRel (1 : Matrix (Fin d) (Fin d) ℝ) s s := ⟨by simp, rfl, rfl⟩
+  have := ((C19_itml_run_equivariant γ tol numPos 1 (by simp) σ
+    (fun i => by rcases hσ i with h | h <;> rw [h] <;> norm_num) vs vs'
+    (fun i => by rw [hvs i]; simp) fuel 0 s s lamOld h0).1).1
+  simpa using this
+
+/-- non-vacuity: a rotation by a quarter turn and one swapped pair satisfy the hypotheses -/
+example : ∃ (Q : Matrix (Fin 2) (Fin 2) ℝ) (σ : Fin 2 → ℝ), Q * Qᵀ = 1 ∧ Q ≠ 1 ∧ (∀ i, σ i * σ i = 1) ∧ σ 0 ≠ σ 1 := by
+  refine ⟨!![0, -1; 1, 0], ![1, -1], ?_, ?_, ?_, ?_⟩
+  · ext i j; fin_cases i <;> fin_cases j <;> simp [Matrix.mul_apply, Fin.sum_univ_two]
+  · intro h; have := congrFun (congrFun h 0) 0; simp at this
+  · intro i; fin_cases i <;> simp
+  · simp; norm_num
+
+/-! ## LSML and MMC: the objectives (and LSML's gradient) only see the geometry
+
+`rot Q M = Qᵀ M Q` is the metric, `σ • Qᵀ v` a difference vector, after the points went through the orthogonal `Q` and
+the two points of the pair were exchanged (`σ = −1`) or not (`σ = 1`). -/
+
+/-- `Qᵀ M Q` as a model matrix -/
+noncomputable def rot (Q : Matrix (Fin d) (Fin d) ℝ) (M : Mat ℝ d d) : Mat ℝ d d :=
+  fun a b => (Qᵀ * Matrix.of M * Q) a b
+
+theorem rot_of (Q : Matrix (Fin d) (Fin d) ℝ) (M : Mat ℝ d d) : Matrix.of (rot Q M) = Qᵀ * Matrix.of M * Q := by
+  ext a b; rfl
+
+/-- a learned squared distance is unchanged: `(σQᵀv)ᵀ (QᵀMQ) (σQᵀv) = vᵀ M v` -/
+theorem C19_quadForm_equiv (Q : Matrix (Fin d) (Fin d) ℝ) (hQ : Q * Qᵀ = 1) (M : Mat ℝ d d) (v : Vec ℝ d) (σ : ℝ)
+    (hσ : σ * σ = 1) : quadForm (rot Q M) (σ • (Qᵀ *ᵥ v)) = quadForm M v := by
+  rw [quadForm_eq, quadForm_eq, rot_of, Matrix.mulVec_smul, dotProduct_smul, smul_dotProduct, smul_smul, hσ, one_smul]
+  rw [Matrix.mulVec_mulVec, Matrix.mul_assoc, Matrix.mul_assoc, hQ, Matrix.mul_one]
+  rw [← Matrix.mulVec_mulVec, Matrix.dotProduct_mulVec, Matrix.vecMul_transpose, Matrix.mulVec_mulVec, hQ,
+    Matrix.one_mulVec]
+
+/-- how the second run sees a quadruplet: both difference vectors mapped, each with its own sign -/
+def QuadRel (Q : Matrix (Fin d) (Fin d) ℝ) (q q' : Vec ℝ d × Vec ℝ d × ℝ) : Prop :=
+  ∃ σ τ : ℝ, σ * σ = 1 ∧ τ * τ = 1 ∧ q'.1 = σ • (Qᵀ *ᵥ q.1) ∧ q'.2.1 = τ • (Qᵀ *ᵥ q.2.1) ∧ q'.2.2 = q.2.2
+
+theorem lossTerm_equiv (Q : Matrix (Fin d) (Fin d) ℝ) (hQ : Q * Qᵀ = 1) (M : Mat ℝ d d)
+    (q q' : Vec ℝ d × Vec ℝ d × ℝ) (h : QuadRel Q q q') : lossTerm (rot Q M) q' = lossTerm M q := by
+  obtain ⟨σ, τ, hσ, hτ, h1, h2, h3⟩ := h
+  unfold lossTerm
+  rw [h1, h2, h3, C19_quadForm_equiv Q hQ M q.1 σ hσ, C19_quadForm_equiv Q hQ M q.2.1 τ hτ]
+
+/-- **LSML: the comparison loss is invariant** under rotations of the data and swaps inside either pair of any
+quadruplet (together with `tr` and `det` below: the whole objective) -/
+theorem C19_lsml_loss_equiv (Q : Matrix (Fin d) (Fin d) ℝ) (hQ : Q * Qᵀ = 1) (M : Mat ℝ d d)
+    (quads quads' : List (Vec ℝ d × Vec ℝ d × ℝ)) (h : List.Forall₂ (QuadRel Q) quads quads') :
+    lsmlComparisonLoss (rot Q M) quads' = lsmlComparisonLoss M quads := by
+  rw [lsmlComparisonLoss_eq_sum, lsmlComparisonLoss_eq_sum]
+  induction h with
+  | nil => rfl
+  | cons hq _ ih => simp only [List.map_cons, List.sum_cons, ih, lossTerm_equiv Q hQ M _ _ hq]
+
+/-- the `tr(M M₀⁻¹)` term: `⟨QᵀMQ, QᵀPQ⟩_F = ⟨M, P⟩_F` -/
+theorem C19_frob_rot (Q : Matrix (Fin d) (Fin d) ℝ) (hQ : Q * Qᵀ = 1) (M P : Mat ℝ d d) :
+    frob (rot Q M) (rot Q P) = frob M P := by
+  have hf : ∀ A B : Mat ℝ d d, frob A B = Matrix.trace ((Matrix.of A)ᵀ * Matrix.of B) := by
+    intro A B
+    simp only [frob, vsum_eq_sum, Matrix.trace, Matrix.diag, Matrix.mul_apply, Matrix.transpose_apply, Matrix.of_apply]
+    rw [Finset.sum_comm]
+  rw [hf, hf, rot_of, rot_of]
+  simp only [Matrix.transpose_mul, Matrix.transpose_transpose]
+  calc Matrix.trace (Qᵀ * ((Matrix.of M)ᵀ * Q) * (Qᵀ * Matrix.of P * Q))
+      = Matrix.trace (Qᵀ * ((Matrix.of M)ᵀ * (Q * Qᵀ) * Matrix.of P * Q)) := by
+        congr 1; simp only [Matrix.mul_assoc]
+    _ = Matrix.trace ((Matrix.of M)ᵀ * (Q * Qᵀ) * Matrix.of P * Q * Qᵀ) := by rw [Matrix.trace_mul_comm]
+    _ = Matrix.trace ((Matrix.of M)ᵀ * Matrix.of P) := by
+        rw [hQ, Matrix.mul_one, Matrix.mul_assoc ((Matrix.of M)ᵀ * Matrix.of P), hQ, Matrix.mul_one]
+
+/-- the `log det` term: `det(QᵀMQ) = det M` -/
+theorem C19_det_rot (Q : Matrix (Fin d) (Fin d) ℝ) (hQ : Q * Qᵀ = 1) (M : Mat ℝ d d) :
+    (Matrix.of (rot Q M)).det = (Matrix.of M).det := by
+  rw [rot_of, Matrix.det_mul, Matrix.det_mul, Matrix.det_transpose]
+  have : Q.det * Q.det = 1 := by
+    have := congrArg Matrix.det hQ
+    rwa [Matrix.det_mul, Matrix.det_transpose, Matrix.det_one] at this
+  calc Q.det * (Matrix.of M).det * Q.det = (Q.det * Q.det) * (Matrix.of M).det := by ring
+    _ = (Matrix.of M).det := by rw [this, one_mul]
+
+/-- **MMC: the dissimilarity objective and the similarity sum (hence the budget) are invariant** under rotations of the
+data and swaps inside any pair -/
+theorem C19_mmc_objective_equiv (Q : Matrix (Fin d) (Fin d) ℝ) (hQ : Q * Qᵀ = 1) (A : Mat ℝ d d)
+    (vs vs' : List (Vec ℝ d)) (h : List.Forall₂ (fun v v' => ∃ σ : ℝ, σ * σ = 1 ∧ v' = σ • (Qᵀ *ᵥ v)) vs vs') :
+    mmcFD vs' (rot Q A) = mmcFD vs A ∧ mmcSimilarSum vs' (rot Q A) = mmcSimilarSum vs A := by
+  have hsum : ∀ f : ℝ → ℝ, (vs'.map fun v => f (quadForm (rot Q A) v)).sum = (vs.map fun v => f (quadForm A v)).sum := by
+    intro f
+    induction h with
+    | nil => rfl
+    | cons hv _ ih =>
+      obtain ⟨σ, hσ, rfl⟩ := hv
+      simp only [List.map_cons, List.sum_cons, ih, C19_quadForm_equiv Q hQ A _ σ hσ]
+  constructor
+  · simp only [mmcFD, foldl_add_eq, zero_add, sqrt_real]
+    rw [hsum Real.sqrt]
+  · rw [C14_similar_sum, C14_similar_sum]; exact hsum id
+
+theorem rot_outer (Q : Matrix (Fin d) (Fin d) ℝ) (v : Vec ℝ d) (σ : ℝ) (hσ : σ * σ = 1) (a b : Fin d) :
+    (σ • (Qᵀ *ᵥ v)) a * (σ • (Qᵀ *ᵥ v)) b = rot Q (fun a b => v a * v b) a b := by
+  have h1 : (σ • (Qᵀ *ᵥ v)) a * (σ • (Qᵀ *ᵥ v)) b = (Qᵀ *ᵥ v) a * (Qᵀ *ᵥ v) b := by
+    simp only [Pi.smul_apply, smul_eq_mul]
+    calc σ * (Qᵀ *ᵥ v) a * (σ * (Qᵀ *ᵥ v) b) = (σ * σ) * ((Qᵀ *ᵥ v) a * (Qᵀ *ᵥ v) b) := by ring
+      _ = _ := by rw [hσ, one_mul]
+  rw [h1]
+  have h2 : (Qᵀ * Matrix.of (fun a b => v a * v b) * Q) = vecMulVec (Qᵀ *ᵥ v) (Qᵀ *ᵥ v) := by
+    have : Matrix.of (fun a b => v a * v b) = vecMulVec v v := by ext a b; simp [vecMulVec_apply]
+    rw [this, Matrix.mul_vecMulVec, Matrix.vecMulVec_mul, ← Matrix.mulVec_transpose]
+  simp only [rot, h2, vecMulVec_apply]
+
+theorem rot_add (Q : Matrix (Fin d) (Fin d) ℝ) (A B : Mat ℝ d d) (a b : Fin d) :
+    rot Q (fun a b => A a b + B a b) a b = rot Q A a b + rot Q B a b := by
+  have : Matrix.of (fun a b => A a b + B a b) = Matrix.of A + Matrix.of B := by ext; rfl
+  simp only [rot, this, Matrix.mul_add, Matrix.add_mul, Matrix.add_apply]
+
+theorem rot_smul (Q : Matrix (Fin d) (Fin d) ℝ) (c : ℝ) (A : Mat ℝ d d) (a b : Fin d) :
+    rot Q (fun a b => c * A a b) a b = c * rot Q A a b := by
+  have : Matrix.of (fun a b => c * A a b) = c • Matrix.of A := by ext; rfl
+  simp only [rot, this, Matrix.mul_smul, Matrix.smul_mul, Matrix.smul_apply, smul_eq_mul]
+
+theorem rot_zero (Q : Matrix (Fin d) (Fin d) ℝ) (a b : Fin d) : rot Q (fun _ _ => (0:ℝ)) a b = 0 := by
+  have : (Matrix.of fun (_ _ : Fin d) => (0:ℝ)) = 0 := by ext; rfl
+  simp only [rot, this, Matrix.mul_zero, Matrix.zero_mul, Matrix.zero_apply]
+
+theorem gradTerm_equiv (Q : Matrix (Fin d) (Fin d) ℝ) (hQ : Q * Qᵀ = 1) (M : Mat ℝ d d)
+    (q q' : Vec ℝ d × Vec ℝ d × ℝ) (h : QuadRel Q q q') (a b : Fin d) :
+    gradTerm (rot Q M) a b q' = rot Q (fun a b => gradTerm M a b q) a b := by
+  obtain ⟨σ, τ, hσ, hτ, h1, h2, h3⟩ := h
+  unfold gradTerm
+  rw [h1, h2, h3, C19_quadForm_equiv Q hQ M q.1 σ hσ, C19_quadForm_equiv Q hQ M q.2.1 τ hτ,
+    rot_outer Q q.1 σ hσ, rot_outer Q q.2.1 τ hτ]
+  by_cases hv : quadForm M q.2.1 < quadForm M q.1
+  · simp only [hv, if_true]
+    by_cases hp : 0 < quadForm M q.2.1
+    · simp only [hp, if_true]
+      rw [rot_smul, rot_add, rot_smul, rot_smul]
+    · simp only [hp, if_false, add_zero]
+      rw [rot_smul, rot_smul]
+  · simp only [hv, if_false]
+    exact (rot_zero Q a b).symm
+
+/-- **LSML: the gradient the solver computes is equivariant**: on the mapped data, at the mapped matrix, it is
+`Qᵀ ∇f Q` — so gradient steps, their norms and the stopping rule correspond one to one -/
+theorem C19_lsml_grad_equiv (Q : Matrix (Fin d) (Fin d) ℝ) (hQ : Q * Qᵀ = 1) (M P Minv : Mat ℝ d d)
+    (quads quads' : List (Vec ℝ d × Vec ℝ d × ℝ)) (h : List.Forall₂ (QuadRel Q) quads quads') (a b : Fin d) :
+    lsmlGradient (rot Q M) (rot Q P) (rot Q Minv) quads' a b = rot Q (lsmlGradient M P Minv quads) a b := by
+  have hsum : (quads'.map (gradTerm (rot Q M) a b)).sum = rot Q (fun a b => (quads.map (gradTerm M a b)).sum) a b := by
+    induction h with
+    | nil => simp only [List.map_nil, List.sum_nil]; exact (rot_zero Q a b).symm
+    | cons hq _ ih =>
+      simp only [List.map_cons, List.sum_cons]
+      rw [rot_add, ih, gradTerm_equiv Q hQ M _ _ hq]
+  have hfun : lsmlGradient M P Minv quads = fun a b => (P a b + (-1) * Minv a b) + (quads.map (gradTerm M a b)).sum := by
+    funext a b; rw [C12_grad_form]; ring
+  rw [C12_grad_form, hfun, rot_add, rot_add, rot_smul, hsum]; ring
